@@ -3,6 +3,7 @@ package main
 import "time"
 
 var stdAssumptions = []string{
+	"package time, connection deadlines and runtime.NumCPU/GOMAXPROCS of the library packages are the simulator's (virtual clock that advances only when no task can run; per-party CPU count drawn from the tape): on the unchanged tree nothing depends on them, a change that adds a time-out or splits work by the CPU count is decided by the tape",
 	"the simulator's models of goroutine scheduling, sync, channels and TCP (about 1500 lines in /verif/sim) produce only behaviours the real runtime and network can produce, and switch tasks at every synchronisation and I/O point",
 	"the overlay rewriter (go statements, channels, sync, sync/atomic, net, crypto/rand -> simulator equivalents) preserves the semantics of the rewritten sources",
 	"a clean batch is evidence for the sampled schedules, inputs and faults, not a proof",
